@@ -2369,4 +2369,58 @@ theorem corrupted_rejected_ps {M} (io : DblIO D) (pr : Prec) (rdM : Rd M) (wrM :
   corrupted_load_rejected io _ _ (tri_rdPS io rdM htri hext S A O) (ext_rdPS io rdM hext S A O) x
     (roundtrip_ps io pr rdM wrM vM S A O x hv hdim hM ho) dest p t q q' hpq j hj
 
+/-! ### a file whose trailing white space was trimmed still denotes the saved object -/
+
+theorem tokenizeAux_render_append : ∀ (l : List (Tok × List Char)) (rest : List Char), (∀ p ∈ l, CleanTok p.1 ∧ Sep p.2) →
+    tokenizeAux (render l ++ rest) [] = l.map (·.1) ++ tokenizeAux rest []
+  | [], rest, _ => by simp [render]
+  | (t, w) :: l, rest, hl => by
+    have hp := hl (t, w) (List.mem_cons_self)
+    have ih := tokenizeAux_render_append l rest (fun q hq => hl q (List.mem_cons_of_mem _ hq))
+    simp only [render, List.append_assoc]
+    rw [tokenizeAux_tok t _ [] hp.1.2, List.append_nil,
+      tokenizeAux_sep w (render l ++ rest) t.reverse hp.2 (by simpa using hp.1.1), ih]
+    simp
+
+theorem tokenizeAux_last (t : Tok) (w : List Char) (ht : CleanTok t) (hw : ∀ c ∈ w, isWs c = true) :
+    tokenizeAux (t ++ w) [] = [t] := by
+  rw [tokenizeAux_tok t w [] ht.2, List.append_nil]
+  cases w with
+  | nil =>
+    have : t.reverse ≠ [] := by simpa using ht.1
+    cases h : t.reverse with
+    | nil => exact absurd h this
+    | cons a b => simp [tokenizeAux, ← h, ht.1]
+  | cons c w =>
+    have := tokenizeAux_sep (c :: w) [] t.reverse ⟨by simp, hw⟩ (by simpa using ht.1)
+    simpa [tokenizeAux] using this
+
+/-- **trimmed layout**: tokens separated by arbitrary non-empty white space, the LAST token followed by any amount of
+    white space — including none, so that it ends exactly at end-of-input — tokenize to exactly the token list -/
+theorem tokenize_render_trimmed (lead : List Char) (hlead : ∀ c ∈ lead, isWs c = true)
+    (l : List (Tok × List Char)) (hl : ∀ p ∈ l, CleanTok p.1 ∧ Sep p.2) (t : Tok) (ht : CleanTok t)
+    (w : List Char) (hw : ∀ c ∈ w, isWs c = true) :
+    tokenize (lead ++ (render l ++ (t ++ w))) = l.map (·.1) ++ [t] := by
+  unfold tokenize
+  rw [tokenizeAux_ws lead _ hlead, tokenizeAux_render_append l _ hl, tokenizeAux_last t w ht hw]
+
+/-- **the saved object is read back from the trimmed file**: whatever white space separates the tokens of `wr x`, and
+    whether or not any white space follows the last token, the reader returns `x` and leaves nothing unread -/
+theorem roundtrip_trimmed_bytes {α} (rd : Rd α) (wr : α → Stream) (x : α) (h : RoundTrips rd wr x)
+    (lead : List Char) (hlead : ∀ c ∈ lead, isWs c = true)
+    (l : List (Tok × List Char)) (hl : ∀ p ∈ l, CleanTok p.1 ∧ Sep p.2) (t : Tok) (ht : CleanTok t)
+    (w : List Char) (hw : ∀ c ∈ w, isWs c = true) (hx : l.map (·.1) ++ [t] = wr x) :
+    rd (tokenize (lead ++ (render l ++ (t ++ w)))) = .ok x [] := by
+  rw [tokenize_render_trimmed lead hlead l hl t ht w hw, hx]
+  simpa using h []
+
+/-- at the level of `operator>>`: loading the trimmed file replaces the destination by the saved object -/
+theorem load_trimmed_bytes {α} (rd : Rd α) (wr : α → Stream) (x dest : α) (h : RoundTrips rd wr x)
+    (lead : List Char) (hlead : ∀ c ∈ lead, isWs c = true)
+    (l : List (Tok × List Char)) (hl : ∀ p ∈ l, CleanTok p.1 ∧ Sep p.2) (t : Tok) (ht : CleanTok t)
+    (w : List Char) (hw : ∀ c ∈ w, isWs c = true) (hx : l.map (·.1) ++ [t] = wr x) :
+    (load rd dest (tokenize (lead ++ (render l ++ (t ++ w))))).dest = x ∧
+    (load rd dest (tokenize (lead ++ (render l ++ (t ++ w))))).sig = none := by
+  simp [load, roundtrip_trimmed_bytes rd wr x h lead hlead l hl t ht w hw hx]
+
 end AITB.Codec
